@@ -283,6 +283,13 @@ class Walker:
                 self.emit('assign', p, pc, lhs=('mvar', p['n'], vid), rhs=v, init=True)
             elif isinstance(v, tuple) and v and v[0] == 'fresh':
                 self.fr.env[vid] = ('local', p['n'], vid)
+            elif isinstance(v, tuple) and v and v[0] in ('lit', 'fmt') and 'Mut' in p.get('mode', '') and \
+                    self.prog.types[p['ty']] == 'std::string::String':
+                # a `let mut s = "..".to_string()` accumulator: its later appends are local mutations
+                loc = ('local', p['n'], vid)
+                self.fr.env[vid] = loc
+                self.fr.local_colls.setdefault(vid, []).append(dict(method='init', value=v, pc=pc, loops=tuple(self.loops), node=p))
+                self.emit('local_mut', p, pc, local=loc, method='init', args=[v])
             else:
                 self.fr.env[vid] = v
             if 'sub' in p:
